@@ -7,6 +7,7 @@ PROP = dict(
     level_note='Scoped (DESIGN.md section 2): inputs are those reachable by fault operators from valid seeds plus fixed numeric/nesting extremes, not all byte strings. Xerces-C/ICU uninstrumented. Nesting capped at 200 so stack exhaustion inside Xerces is not provoked.',
     design_ref='DESIGN.md section 7 (C03), 3.2, 3.3, 5',
     run_timeout=150,
+    env={'VERIF_LSAN': '1'},      # LeakSanitizer check after every run: memory obtained outside the simulated manager (ICU objects, global new) and lost
     runs=dict(quick=4000, thorough=100000),
     nontrivial_counter=None,
     rule='One evaluation = one run: a long-lived transformer executes 1-6 seeded ops (each with at most one destructive fault and always-on benign perturbations) each followed by a known-good transformation. distinct_nontrivial = number of distinct trace hashes (hash over per-op status/exception/output-hash/follow-up outcome).',
